@@ -17,6 +17,7 @@ package cache
 import (
 	"context"
 	"fmt"
+	"regexp"
 	"sort"
 	"time"
 
@@ -217,6 +218,12 @@ func (c *localCache) ReadCh(ctx context.Context, name string, opts *Opts, paths 
 	if opts == nil {
 		opts = &Opts{}
 	}
+	switch opts.Store {
+	case cachepb.Store_CONFIG, cachepb.Store_STATE:
+		// the cache interprets the path elements of config and state store reads as regular expressions.
+		// Element names and key values are to be taken literally.
+		paths = quoteRegexpMeta(paths)
+	}
 	outCh := make(chan *Update, len(paths))
 	go func() {
 		defer close(outCh)
@@ -254,6 +261,19 @@ func (c *localCache) ReadCh(ctx context.Context, name string, opts *Opts, paths 
 		}
 	}()
 	return outCh
+}
+
+// quoteRegexpMeta returns a copy of the paths with the regular expression meta characters of all elements escaped.
+func quoteRegexpMeta(paths [][]string) [][]string {
+	result := make([][]string, 0, len(paths))
+	for _, p := range paths {
+		qp := make([]string, 0, len(p))
+		for _, e := range p {
+			qp = append(qp, regexp.QuoteMeta(e))
+		}
+		result = append(result, qp)
+	}
+	return result
 }
 
 func (c *localCache) GetChanges(ctx context.Context, name, candidate string) ([]*Change, error) {
